@@ -1061,7 +1061,7 @@ def illformed_suite(run, scratch, seed, n, name="illformed_stream"):
 
 
 # ---------------------------------------------------------------- C11: isolation / repeatability / input immutability
-def gen_kernel_case(rng, name):
+def gen_kernel_case(rng, name, force_w=None):
     """flat strategies using the algos whose kernels are outside the model (random / ffn / sklearn / scipy)"""
     import gen_backtest
     from gen_engine import hx
@@ -1082,6 +1082,7 @@ def gen_kernel_case(rng, name):
     if rng.random() < 0.35:
         st.append(["selectrandomly", rng.randint(2, nt - 1)])
     w = rng.choice(["weigherc"] * 3 + ["weighinvvol"] * 2 + ["weighmeanvar"] * 2 + ["weighrandomly"] * 2 + ["weighequally"])
+    w = force_w or w
     if w == "weighrandomly":
         st.append(["weighrandomly", hx(0.0), hx(0.75)])
     elif w == "weighequally":
@@ -1123,7 +1124,12 @@ def isolation_sessions(seed, n):
     sessions = []
     for i in range(n):
         u = rng.random()
-        if u < 0.35:
+        forced = ["weigherc", "weighinvvol", "weighmeanvar", "weighrandomly"]
+        if i < 2 * len(forced):
+            # every session set contains each kernel-backed weighing algo at least twice (state kept at class or module
+            # level by one of them shows only when two backtests of one process use it)
+            c = gen_kernel_case(rng, "i%04d" % i, force_w=forced[i % len(forced)])
+        elif u < 0.35:
             c = gen_kernel_case(rng, "i%04d" % i)
         elif u < 0.55:
             c = gen_backtest.gen_fi_case(rng, "i%04d" % i)
